@@ -121,11 +121,13 @@ pub fn generate(tape: &[u8]) -> AsyncProgram {
                 // async generator with queued next() calls
                 special = true;
                 let k = 1 + t.below(3);
+                let mut has_yield_star = false;
                 s.push_str(&format!("var {tag}g = (async function* () {{\n  print('{tag} gen start');\n"));
                 for i in 0..k {
                     let v = value(&mut t, &format!("{tag}.{i}"), &mut labels, &mut special);
                     if t.chance(60) {
                         s.push_str(&format!("  try {{ yield* [1, {v}]; }} catch (e) {{ print('{tag}.{i} gen caught ' + show(e)); }}\n"));
+                        has_yield_star = true;
                         lab("yield-star", &mut labels);
                     } else {
                         s.push_str(&format!("  try {{ var y{i} = yield {v}; print('{tag}.{i} resumed ' + show(y{i})); }} catch (e) {{ print('{tag}.{i} gen caught ' + show(e)); }}\n"));
@@ -135,8 +137,12 @@ pub fn generate(tape: &[u8]) -> AsyncProgram {
                 let calls = 1 + t.below(5);
                 for i in 0..calls {
                     match t.below(6) {
-                        0 => s.push_str(&format!("{tag}g.return('{tag}early').then(ok('{tag}.r{i}'), er('{tag}.r{i}'));\n")),
-                        1 => s.push_str(&format!("{tag}g.throw('{tag}thrown').then(ok('{tag}.t{i}'), er('{tag}.t{i}'));\n")),
+                        // (return() during `yield*` over a sync iterable: same ES2024 vs node-20 difference)
+                        0 if !has_yield_star => s.push_str(&format!("{tag}g.return('{tag}early').then(ok('{tag}.r{i}'), er('{tag}.r{i}'));\n")),
+                        // throw() while suspended in `yield*` over a sync iterable without a throw method:
+                        // ES2024 closes the iterator and rejects with a TypeError, V8 in node 20 still
+                        // forwards the value; the reference cannot be used there
+                        1 if !has_yield_star => s.push_str(&format!("{tag}g.throw('{tag}thrown').then(ok('{tag}.t{i}'), er('{tag}.t{i}'));\n")),
                         _ => s.push_str(&format!("{tag}g.next('{tag}in{i}').then(ok('{tag}.n{i}'), er('{tag}.n{i}'));\n")),
                     }
                 }
